@@ -283,6 +283,34 @@ def ddInsert (s : Snp) : List Snp → List Snp
 
 def mkDict (snps : List Snp) : List Snp := snps.foldl (fun d s => ddInsert s d) []
 
+/-! ### the passes over the VCF lines -/
+
+/-- the calls of every requested population, when every one of them has a sample column -/
+def siteCalls (st : Site) (popIds : List Nat) : List (Nat × Nat) := popIds.map (callsOfPop st.inds)
+
+/-- the entries `make_data_dict_vcf` writes line by line, before dictionary semantics; `none` = KeyError in
+    `count_data_dict` (a requested population without any sample column) -/
+def vcfEntries (filt : Bool) (popIds : List Nat) (sites : List Site) : Option (List Snp) :=
+  (sites.filter (siteKept filt)).mapM fun st => (callsFor st.inds popIds).map (siteSnp st)
+
+/-- no-subsampling pass over the VCF lines -/
+def ddVcf (filt : Bool) (popIds : List Nat) (sites : List Site) : Option (List Snp) :=
+  (vcfEntries filt popIds sites).map mkDict
+
+/-- subsampling pass: threads the recorded draws through the lines -/
+def ddSub (filt : Bool) (want : List (Nat × Nat)) (popIds : List Nat) :
+    List Site → List (List Nat) → List Snp → Option (List Snp × List (List Nat))
+  | [], draws, acc => some (mkDict acc, draws)
+  | st :: rest, draws, acc =>
+      if !siteKept filt st then ddSub filt want popIds rest draws acc
+      else
+        match subsampleLoop st.inds want (popOrder st.inds want) draws [] with
+        | (none, left) => ddSub filt want popIds rest left acc
+        | (some calls, left) =>
+            match popIds.mapM (fun p => (calls.find? (·.1 == p)).map (·.2)) with
+            | none => none
+            | some cl => ddSub filt want popIds rest left (acc ++ [siteSnp st cl])
+
 /-- the `while p > end` loop of fragment_data_dict started at `end = chunk_size`, `chunk_index = 0` -/
 def chunkLoop (size p : Nat) : Nat → Nat → Nat → Nat
   | 0, _, idx => idx
